@@ -583,9 +583,9 @@ class Oracle(stateful.Stateful):
         self._run_times[trial.trial_id] += 1
 
         # Check if need to retry the trial.
-        if not self._retry(trial):
+        retry = self._retry(trial)
+        if not retry:
             self.end_order.append(trial.trial_id)
-            self._check_consecutive_failures()
 
         self._save_trial(trial)
         self.save()
@@ -598,6 +598,10 @@ class Oracle(stateful.Stateful):
             if ongoing_trial.trial_id == trial.trial_id:
                 self.ongoing_trials.pop(tuner_id)
                 break
+
+        # Raise only after the trial is recorded as ended and no longer ongoing.
+        if not retry:
+            self._check_consecutive_failures()
 
     def _retry(self, trial):
         """Send the trial for retry if needed.
